@@ -1503,22 +1503,19 @@ func checkLogsGrouping(c *Ctx, rule string) {
 		if cal == nil || cal.Name() != "Add" || !repoNamedIs(cal.Signature.Recv().Type(), "eth", "Logs") {
 			continue
 		}
-		// receiver: &tx.Logs with tx = b.Tx(K.b), b = bm[K.a]
+		// receiver: &tx.Logs with tx = b.Tx(K.b), b = bm[K.a] – each possibly through a small helper that
+		// returns exactly that for its parameters (txAt(b, idx, hash), bm.open(num, hash))
 		txv, _ := fieldChain(call.Call.Args[0])
-		txCall, _ := txv.(*ssa.Call)
-		if txCall == nil || staticCallee(txCall) == nil || staticCallee(txCall).Name() != "Tx" {
+		blockV, idxV, isTx := asTxOf(txv)
+		if !isTx {
 			continue
 		}
-		kb := reg.Resolve(txCall.Call.Args[1])
-		bv := reg.Resolve(txCall.Call.Args[0])
-		if e, ok := bv.(*ssa.Extract); ok {
-			bv = e.Tuple
-		}
-		lk, ok := bv.(*ssa.Lookup)
-		if !ok {
+		kb := reg.Resolve(idxV)
+		keyV, isLk := asBlockLookup(reg.Resolve(blockV))
+		if !isLk {
 			continue
 		}
-		ra, ca := fieldChain(reg.Resolve(lk.Index))
+		ra, ca := fieldChain(reg.Resolve(keyV))
 		rb, cb := fieldChain(kb)
 		if len(ca) != 1 || len(cb) != 1 || ca[0].Name() != "a" || cb[0].Name() != "b" || ra != rb {
 			// same key value, first and second field
@@ -1800,4 +1797,94 @@ func cellStoresOf(res *Resolver, fn *ssa.Function) []cellStore {
 		})
 	}
 	return out
+}
+
+// asTxOf: v is b.Tx(idx) – directly, or the result of a helper every return of which is
+// <param i>.Tx(<param j>): the block and the index as seen by the caller
+func asTxOf(v ssa.Value) (block, idx ssa.Value, ok bool) {
+	call, isCall := stripConv(v).(*ssa.Call)
+	if !isCall {
+		return nil, nil, false
+	}
+	cal := staticCallee(call)
+	if cal == nil {
+		return nil, nil, false
+	}
+	if cal.Name() == "Tx" && cal.Signature.Recv() != nil && repoNamedIs(cal.Signature.Recv().Type(), "eth", "Block") && len(call.Call.Args) == 2 {
+		return call.Call.Args[0], call.Call.Args[1], true
+	}
+	if cal.Blocks == nil || !isRepoFunc(cal) {
+		return nil, nil, false
+	}
+	bi, ii := -1, -1
+	for _, r := range returnsOf(cal) {
+		inner, isC := stripConv(returnValues(r)[0]).(*ssa.Call)
+		if !isC {
+			return nil, nil, false
+		}
+		ic := staticCallee(inner)
+		if ic == nil || ic.Name() != "Tx" || len(inner.Call.Args) != 2 {
+			return nil, nil, false
+		}
+		bp, ok1 := stripConv(inner.Call.Args[0]).(*ssa.Parameter)
+		ip, ok2 := stripConv(inner.Call.Args[1]).(*ssa.Parameter)
+		if !ok1 || !ok2 {
+			return nil, nil, false
+		}
+		bi, ii = paramIndex(bp), paramIndex(ip)
+	}
+	if bi < 0 || ii < 0 || bi >= len(call.Call.Args) || ii >= len(call.Call.Args) {
+		return nil, nil, false
+	}
+	return call.Call.Args[bi], call.Call.Args[ii], true
+}
+
+// asBlockLookup: v is m[key] (the value of a look-up in a block map) – directly, or the first
+// result of a helper whose non-error returns hand out <param map>[<param key>]: the key as seen by the caller
+func asBlockLookup(v ssa.Value) (key ssa.Value, ok bool) {
+	v = stripConv(v)
+	if e, isE := v.(*ssa.Extract); isE {
+		if lk, isLk := e.Tuple.(*ssa.Lookup); isLk {
+			return lk.Index, true
+		}
+		v = e.Tuple
+	}
+	if lk, isLk := v.(*ssa.Lookup); isLk {
+		return lk.Index, true
+	}
+	call, isCall := v.(*ssa.Call)
+	if !isCall {
+		return nil, false
+	}
+	cal := staticCallee(call)
+	if cal == nil || cal.Blocks == nil || !isRepoFunc(cal) {
+		return nil, false
+	}
+	ki := -1
+	n := 0
+	for _, r := range returnsOf(cal) {
+		vals := returnValues(r)
+		if len(vals) == 2 && isNilConst(vals[0]) {
+			continue // the error return
+		}
+		rv := stripConv(vals[0])
+		if e, isE := rv.(*ssa.Extract); isE {
+			rv = e.Tuple
+		}
+		lk, isLk := rv.(*ssa.Lookup)
+		if !isLk {
+			return nil, false
+		}
+		mp, ok1 := stripConv(lk.X).(*ssa.Parameter)
+		kp, ok2 := stripNum(lk.Index).(*ssa.Parameter)
+		if !ok1 || !ok2 || mp.Parent() != cal {
+			return nil, false
+		}
+		ki = paramIndex(kp)
+		n++
+	}
+	if n == 0 || ki < 0 || ki >= len(call.Call.Args) {
+		return nil, false
+	}
+	return call.Call.Args[ki], true
 }
